@@ -57,7 +57,13 @@ Ancestors(c) ==
       [] c = "MultiError"        -> {"LookupError", "ValueError", "Exception", "BaseException", "object"}
       [] c = "UnsupportedOperation" -> {"OSError", "ValueError", "Exception", "BaseException", "object"}
       [] c = "DeepMultiError"    -> {"MultiError", "LookupError", "ValueError", "Exception", "BaseException", "object"}
+      \* a class outside the Exception branch (KeyboardInterrupt, SystemExit, asyncio.CancelledError, ...)
+      [] c = "Cancelled"         -> {"BaseException", "object"}
       [] OTHER                   -> {"Exception", "BaseException", "object"}
+
+\* the try tag (and the raise tag's body) catch Exception and its subclasses only; anything else passes through every
+\* handler -- but not through a finally body, which is rendered for every way of leaving the try body
+Catchable(c) == c = "Exception" \/ "Exception" \in Ancestors(c)
 
 Raised(cls, msg) == [k |-> "raise", cls |-> cls, msg |-> msg]
 Returning(v)     == [k |-> "ret", v |-> v]
@@ -649,7 +655,7 @@ TryRet ==
 
 TryExc ==
     /\ ctl # <<>> /\ exc.k # "none" /\ Top.k = "try"
-    /\ LET h == IF exc.k = "raise" /\ Top.st = "body" THEN HandlerIndex(Top.node.hs, exc.cls) ELSE 0 IN
+    /\ LET h == IF exc.k = "raise" /\ Top.st = "body" /\ Catchable(exc.cls) THEN HandlerIndex(Top.node.hs, exc.cls) ELSE 0 IN
        IF h = 0
        THEN Abandon(exc)          \* not caught here (DTReturn, no handler, or raised in handler/else)
        ELSE LET f == Frame("inst", ("error_type" :> Str(exc.cls)) @@ ("error_value" :> Str(exc.msg))
@@ -719,7 +725,7 @@ RaiseRet ==
 
 RaiseExc ==
     /\ ctl # <<>> /\ exc.k # "none" /\ Top.k = "raise"
-    /\ IF exc.k = "raise"
+    /\ IF exc.k = "raise" /\ Catchable(exc.cls)
        THEN Abandon(Raised(Top.node.cls, <<"Invalid Error Value">>))
        ELSE Abandon(exc)                      \* dtml-return is not an error value
     /\ UNCHANGED <<tid, plan, level, calls, ninv, result>>
